@@ -28,6 +28,8 @@ type histWorld struct {
 	// lock of the P2PK send in progress (for the model's op line)
 	lockOwner  int
 	lockSigAll bool
+	// parameter of the crash scenario in progress (amount), 0 = the scenario's default
+	param uint64
 }
 
 type pendMelt struct {
